@@ -63,7 +63,7 @@ func (c *OCSPRevocationChecker) IsRevoked(clientCertificate *x509.Certificate, v
 			if output == nil {
 				continue
 			}
-			ocspResponse, err := c.parseOcspResponse(certCandidates, output, ocspServer)
+			ocspResponse, err := c.parseOcspResponse(clientCertificate, certCandidates, output, ocspServer)
 			if err != nil {
 				c.logger.Debug("failed to parse ocsp server response", zap.String("ocsp_server", ocspServer), zap.Error(err))
 				continue
@@ -106,20 +106,31 @@ func (c *OCSPRevocationChecker) calculateEvictionTime(response *ocsp.Response) t
 	}
 }
 
-func (c *OCSPRevocationChecker) parseOcspResponse(certCandidates []*core.CertificateChainEntry, output []byte, ocspServer string) (*ocsp.Response, error) {
-	ocspResponse, err := ocsp.ParseResponse(output, nil)
-	if err == nil {
-		return ocspResponse, nil
-	}
+func (c *OCSPRevocationChecker) parseOcspResponse(clientCertificate *x509.Certificate, certCandidates []*core.CertificateChainEntry, output []byte, ocspServer string) (*ocsp.Response, error) {
 	for _, certCandidate := range certCandidates {
-		ocspResponse, err := ocsp.ParseResponse(output, certCandidate.Certificate)
+		//only a successful response for this certificate with a signature which can be verified with the issuer is accepted
+		ocspResponse, err := ocsp.ParseResponseForCert(output, clientCertificate, certCandidate.Certificate)
 		if err != nil {
 			c.logger.Debug("failed to parse ocsp server response", zap.String("ocsp_server", ocspServer), zap.Error(err))
+			continue
+		}
+		if ocspResponse.Certificate != nil && !ocspResponse.Certificate.Equal(certCandidate.Certificate) && !isAuthorizedOCSPResponder(ocspResponse.Certificate) {
+			c.logger.Debug("ocsp response was signed by a responder which is not authorized for ocsp signing", zap.String("ocsp_server", ocspServer))
 			continue
 		}
 		return ocspResponse, nil
 	}
 	return nil, errors.New("unable to parse ocsp response with any certificate available")
+}
+
+// isAuthorizedOCSPResponder checks if a delegated responder certificate contains the ocsp signing extended key usage (rfc6960 section 4.2.2.2)
+func isAuthorizedOCSPResponder(responderCertificate *x509.Certificate) bool {
+	for _, extKeyUsage := range responderCertificate.ExtKeyUsage {
+		if extKeyUsage == x509.ExtKeyUsageOCSPSigning {
+			return true
+		}
+	}
+	return false
 }
 
 func (c *OCSPRevocationChecker) Provision(ocspConfig *config.OCSPConfig, logger *zap.Logger) error {
